@@ -770,6 +770,12 @@ func c18SelfTest(c *Ctx) {
 
 func c18Run(c *Ctx) {
 	c18SelfTest(c)
+	{
+		world.NewIdP()
+		up := world.NewUpstream("sweep")
+		c18SizeSweep(c, up)
+		up.Close()
+	}
 	cfgs := c18Configs(c.Quick())
 	hostCount := map[bool]int{false: len(c18Hosts(false, c.Quick())), true: len(c18Hosts(true, c.Quick()))}
 	c.Info["alphabet"] = map[string]any{
